@@ -391,7 +391,7 @@ def rnd_family(rnd, salt):
     other = "Other" + salt
     cls[other] = {"parent": "", "abs": False, "kw": False, "params": [P_(pn[0], T_("int"), I_(5))]}
     absn, conc = "Abs" + salt, "Conc" + salt
-    cls[absn] = {"parent": "", "abs": True, "kw": False, "params": []}
+    cls[absn] = {"parent": "", "abs": True, "kw": False, "params": [P_("z", T_("int"), I_(9))] if rnd.random() < 0.5 else []}
     cls[conc] = {"parent": absn, "abs": False, "kw": False, "params": [P_("z", T_("int"), I_(0))]}
     owners = []
     kinds = rnd.sample(["cls", "opt", "list", "dict", "union"], rnd.randint(2, 4))
